@@ -15,6 +15,7 @@ import (
 	"path/filepath"
 	"reflect"
 	"runtime"
+	"strings"
 	"sync"
 	"sync/atomic"
 	"testing"
@@ -37,11 +38,15 @@ type Step struct {
 }
 
 // Case is a replayable artefact: a trace of model actions with the expected model state after each
-// ("path"), or the constants of a TLC run whose invariant failed ("tlc").
+// ("path"), the constants of a TLC run whose invariant failed ("tlc"), or the constants of a model whose
+// Compactor process the real compactor's operation order does not follow ("order").
 type Case struct {
 	Kind  string `json:"kind"`
 	P     Params `json:"p"`
 	Steps []Step `json:"steps,omitempty"`
+	// Kind "order": the abstracted action sequence of the real compactor up to the failing action (informational;
+	// the replay runs the real compactor again)
+	Real []string `json:"real,omitempty"`
 }
 
 func envOr(k, def string) string {
@@ -143,6 +148,29 @@ func TestCheck(t *testing.T) {
 			}
 			return
 		}
+		if rc.Kind == "order" {
+			p, err := scale(w, rc.P.N, rc.P.NJobs, rc.P.Repl)
+			if err != nil {
+				t.Fatalf("HARNESS-ERROR %v", err)
+			}
+			dir := t.TempDir()
+			res, err := runTLC(specPath, dir, p, true, 4)
+			if err != nil {
+				t.Fatalf("HARNESS-ERROR %v", err)
+			}
+			if res.Violated != "" {
+				r.Violation("protocol-invariant-"+res.Violated+"-violated", res.Trace, Case{Kind: "tlc", P: p})
+				return
+			}
+			g, err := parseDot(filepath.Join(dir, "graph.dot"))
+			if err != nil {
+				t.Fatalf("HARNESS-ERROR parsing TLC's state graph: %v", err)
+			}
+			tmp := t.TempDir()
+			sets := startOrderSets(t, []modelCfg{{p.N, p.NJobs, p.Repl}}, tmp)
+			checkProgramOrder(t, r, w, sets, p, g, tmp)
+			return
+		}
 		synctest.Test(t, func(t *testing.T) { replayPath(r, w, rc, nil) })
 		return
 	}
@@ -180,6 +208,10 @@ func TestCheck(t *testing.T) {
 		demoP, infoP       Params
 	}
 	runs := make([]*tlcRun, len(cfgs))
+	// the real blocks of the program-order conformance are built while TLC runs
+	orderTmp := t.TempDir()
+	oSets := startOrderSets(t, cfgs, orderTmp)
+	defer oSets.wait()
 	var wg sync.WaitGroup
 	for i, mc := range cfgs {
 		p, err := scale(w, mc.ticksPerMax, mc.njobs, mc.replica)
@@ -257,6 +289,16 @@ func TestCheck(t *testing.T) {
 		if !reflect.DeepEqual(abstractModel(g.States[g.Init]), abstractModel(initialState(p))) {
 			t.Fatalf("HARNESS-ERROR initial state of the graph %v is not the harness' %v", g.States[g.Init], initialState(p))
 		}
+		// program order of the real compactor (order_test.go): before the edge replay, it is cheap
+		t0 := time.Now()
+		or := checkProgramOrder(t, r, w, oSets, p, g, orderTmp)
+		r.AddTraces(int64(or.actions))
+		r.Add("real_compactor_cycles", 1)
+		r.Add("real_compactor_actions_validated", int64(or.actions))
+		r.Add("real_compactor_bucket_ops_abstracted", int64(or.ops))
+		r.Note("program order (%d job(s), %s flow, N=%d): real compactor ran %d main-loop iterations (one per tick), %d mutating bucket operations abstracted into %d compactor actions, all steps of the model's Compactor process=%v, %.1fs: %s",
+			p.NJobs, flow, p.N, or.ticks+1, or.ops, or.actions, !or.violated, time.Since(t0).Seconds(), strings.Join(or.seq, " "))
+
 		paths := coverPaths(g, 200)
 		covered := make([]bool, len(g.Edges))
 		for _, pa := range paths {
